@@ -42,8 +42,9 @@ Models: `Model/{SkylineLU,Inverse,StaticMatrix,DenseCheck}.lean`, tied to the re
 
 Householder QR itself (the faithful model `Model/QR.lean`) is the subject of `Properties/C16b.lean`.
 
-What is **not** proved here (see `tools/checks/C16.json`, open items): Cuthill–McKee itself
-(V-grade: checker on the implementation's output for the explored inputs only), block-valued (`static_matrix` entries)
+Cuthill–McKee itself (faithful model `Model/CuthillMcKee.lean`) is the subject of `Properties/C16c.lean`.
+
+What is **not** proved here (see `tools/checks/C16.json`, open items): block-valued (`static_matrix` entries)
 skyline LU (correspondence only), CRS rows with repeated column indices (the constructor keeps the last one, the matrix
 denotes their sum: outside the claim), IEEE rounding.
 -/
